@@ -69,12 +69,13 @@ fn spin(n: u64) {
 /// Managed pool: getters at full speed while one thread resizes (C07) or closes (C06).
 pub fn managed_race(prop: &'static str, seed: u64, close: bool) -> RaceOut {
     let mut rng = Rng::derive(seed, 0x7ace, close as u64);
-    let threads = rng.range(3, 12) as usize;
+    let dense = rng.chance(1, 2);
+    let threads = if dense { rng.range(12, 40) as usize } else { rng.range(3, 12) as usize };
     let iters = rng.range(200, 1500) as usize;
     let start_max = rng.range(1, 4) as usize;
     let resizes: Vec<usize> = (0..rng.range(4, 40)).map(|_| rng.usize_below(6)).collect();
     let final_max = *resizes.last().unwrap();
-    let delay = rng.below(3000);
+    let delay = rng.below(if dense { 40_000 } else { 3000 });
     let cnt = Arc::new(Cnt::default());
     let pool: Pool<LMgr> = Pool::builder(LMgr(cnt.clone())).max_size(start_max).build().unwrap();
     let stop = Arc::new(AtomicBool::new(false));
@@ -92,7 +93,7 @@ pub fn managed_race(prop: &'static str, seed: u64, close: bool) -> RaceOut {
                 match std::panic::catch_unwind(std::panic::AssertUnwindSafe(|| poll_once(pool.timeout_get(&NB)))) {
                     Ok(Some(Ok(o))) => {
                         let _ = gets.fetch_add(1, Ordering::Relaxed);
-                        if (i + t) % 5 == 0 {
+                        if !dense && (i + t) % 5 == 0 {
                             held.push(o);
                         }
                     }
